@@ -1,171 +1,26 @@
 import Sonic.Proofs.NumberAllB
-import Sonic.Proofs.DecBigExp
 
 /-!
-# Written exponents of magnitude 100000 and more in short texts: `parseNumber` still agrees with the reference
+# The master theorem under the former "weak exponent guard"
+
+Before the fix of known finding F6 (`int exp` accumulators saturating at 100000) `parseNumber` was correct only for
+written exponents below 100000 in magnitude or tokens of at most 9600 bytes.  With the 64-bit accumulators
+(`exp < 10^15`) and the clamps (`exp10` to `±100000`, `dp` to `±10^6`) of the patched code the guard is no longer needed
+(`parseNumber_correct` only asks for a token shorter than `2^32` bytes); the old statement is kept under its name.
 -/
 namespace Sonic.Proofs.NumberAll
 
 open Sonic.Spec (JNum NumResult)
 open Sonic.Spec.Number
 open Sonic.Model.Number
-open Sonic.Proofs.Number
-open Sonic.Proofs.Dec (nativeGuard nativeTail pfel_native scanToken_take nativeGuard_take atofNative_big encodeBits sgnBit
-  digits_le_len)
+open Sonic.Proofs.Dec (nativeGuard)
 open Sonic.Proofs.Parse (NumAgrees numOut NumOut)
 
-theorem el_none_of_range (m : Nat) (e : Int) (neg : Bool) (h : e < -348 ∨ e > 347) :
-    Sonic.Model.EiselLemire.atofEiselLemire64 m e neg = none := by
-  rw [Sonic.Proofs.EL.el_eq, if_pos h]
-
-/-- the number of decimal digits of the mantissa is at most the number of digit characters -/
-theorem dl_le_digits (t : Token) (hall : ∀ c ∈ allDigits t, isD c = true) (hM : 0 < t.mantissa) :
-    1 ≤ Sonic.Proofs.Rne.dl t.mantissa ∧ Sonic.Proofs.Rne.dl t.mantissa ≤ (allDigits t).length := by
-  refine ⟨Sonic.Proofs.Rne.dl_pos _, ?_⟩
-  have hlt := digitsVal_lt (allDigits t) hall
-  rw [← mantissa_eq] at hlt
-  have hpos : 0 < (allDigits t).length := by
-    rcases Nat.eq_zero_or_pos (allDigits t).length with h | h
-    · rw [h] at hlt; simp at hlt; omega
-    · exact h
-  exact (Sonic.Proofs.Rne.dl_le_iff _ _ hpos).2 hlt
-
-/-- the reference for a written exponent of magnitude 100000 or more and at most 9600 bytes: infinity resp. ±0 -/
-theorem round_big (t : Token) (hall : ∀ c ∈ allDigits t, isD c = true) (hM : 0 < t.mantissa)
-    (hbig : 100000 ≤ (expVal t.exp).natAbs) (hlen : t.len ≤ 9600) :
-    (0 < expVal t.exp → Sonic.Spec.Rne.round t.neg t.mantissa t.exponent = none) ∧
-    (expVal t.exp < 0 → Sonic.Spec.Rne.round t.neg t.mantissa t.exponent = some (zeroBits t.neg)) := by
-  obtain ⟨hd1, hd2⟩ := dl_le_digits t hall hM
-  obtain ⟨hD1, hD2⟩ := digits_le_len t
-  have hexp := exponent_eq t
-  have hr := Sonic.Proofs.Rne.round_eq t.neg t.mantissa t.exponent (by omega)
-  constructor
-  · intro hpos
-    rw [hr, if_pos (by omega)]
-  · intro hneg
-    rw [hr, if_neg (by omega), if_pos (by omega)]
-    rfl
-
-/-- **The conversion phase for a saturated exponent.**  Written exponent of magnitude 100000 or more, token of at most
-    9600 bytes: the capped accumulator leaves an `exp10` of the same sign and magnitude above 347, so the fast paths
-    and Eisel–Lemire all decline, `AtofNative` (whose own accumulator saturates the same way) sees the decimal point
-    beyond 310 resp. below -330, and the answer — `kParseErrorInfinity` resp. `±0.0` — is the reference's. -/
-theorem convert_round_big (t : Token) (fin : Nat) (f : FloatIn) (native : List Nat) (hg : Good t fin f)
-    (hbig : 100000 ≤ (expVal t.exp).natAbs) (hlen : t.len ≤ 9600) (ht' : scanToken native = some t) :
-    (∃ b p, Sonic.Spec.Rne.round t.neg t.mantissa t.exponent = some b ∧ convert f native = .ok (.real b) fin p) ∨
-    (Sonic.Spec.Rne.round t.neg t.mantissa t.exponent = none ∧ convert f native = .err errInfinity fin) := by
-  obtain ⟨k, ev', h1, h2, h3, h4, _, _, h7⟩ := hg.acc
-  have hnext := hg.next
-  have hneg := hg.neg
-  have hall : ∀ c ∈ allDigits t, isD c = true := by
-    obtain ⟨hids, _, hfds, _⟩ := Sonic.Proofs.Dec.scanToken_struct native t ht'
-    intro c hc
-    unfold allDigits at hc
-    rcases List.mem_append.1 hc with h | h
-    · exact hids c h
-    · cases hf : t.fracDigits with
-      | none => rw [hf] at h; simp at h
-      | some fs => rw [hf] at h; exact hfds fs hf c (by simpa using h)
-  have hMlt := digitsVal_lt (allDigits t) hall
-  rw [← mantissa_eq] at hMlt
-  obtain ⟨hD1, hD2⟩ := digits_le_len t
-  by_cases hm0 : f.man = 0
-  · have htf : f.trunc = false := by
-      cases hh : f.trunc with
-      | false => rfl
-      | true => have := hg.trunc_big hh; omega
-    have hk := h3 htf
-    subst hk
-    have hM0 : t.mantissa = 0 := by rw [hm0] at h2; simp at h2; omega
-    rcases convert_cases f native with ⟨_, h'⟩ | ⟨h0, _⟩ | ⟨h0, _⟩ | ⟨h0, _⟩
-    · left
-      exact ⟨zeroBits t.neg, .zero, by rw [hM0]; exact round_zero _ _, by rw [h', hneg, hnext]⟩
-    · exact absurd hm0 h0
-    · exact absurd hm0 h0
-    · exact absurd hm0 h0
-  · have hman1 : 1 ≤ f.man := Nat.pos_of_ne_zero hm0
-    have hpk : 10 ^ k ≤ t.mantissa := by
-      have : 1 * 10 ^ k ≤ f.man * 10 ^ k := Nat.mul_le_mul_right _ hman1
-      omega
-    have hMpos : 0 < t.mantissa := Nat.lt_of_lt_of_le (Nat.pow_pos (by omega)) hpk
-    have hkD : k < (allDigits t).length := by
-      have : 10 ^ k < 10 ^ (allDigits t).length := Nat.lt_of_le_of_lt hpk hMlt
-      exact (Nat.pow_lt_pow_iff_right (by omega)).1 this
-    have hsat := h7 hbig
-    have hrange : f.exp10 < -348 ∨ f.exp10 > 347 := by
-      rcases Int.lt_or_lt_of_ne (show expVal t.exp ≠ 0 by omega) with hn | hp
-      · left; have := hsat.2 hn; omega
-      · right; have := hsat.1 hp; omega
-    -- only the native fall-back is left
-    have hconv : convert f native = nativeTail f native := by
-      rcases convert_cases f native with ⟨h0, _⟩ | ⟨_, hc, _⟩ | ⟨_, raw, h'⟩ | ⟨_, h'⟩
-      · exact absurd h0 hm0
-      · exfalso; have := hc.2.1; have := hc.2.2; omega
-      · exfalso
-        obtain ⟨_, _, he1, he2, _⟩ := convert_normalfast f native _ _ h'
-        omega
-      · rw [h']
-        rcases pfel_native f native with ⟨v, p, hp, h''⟩ | h''
-        · exfalso
-          obtain ⟨_, b, _, hel, _⟩ := pfel_el f native _ _ p hp h''
-          rw [el_none_of_range _ _ _ hrange] at hel
-          cases hel
-        · exact h''
-    obtain ⟨hb1, hb2⟩ := atofNative_big native t ht' hbig hlen hMpos
-    obtain ⟨hr1, hr2⟩ := round_big t hall hMpos hbig hlen
-    rw [hconv]
-    unfold nativeTail
-    rcases Int.lt_or_lt_of_ne (show expVal t.exp ≠ 0 by omega) with hn | hp
-    · left
-      refine ⟨zeroBits t.neg, .native, hr2 hn, ?_⟩
-      rw [hb2 hn]
-      simp only [Bool.false_eq_true, if_false]
-      have hz : sgnBit t.neg = zeroBits t.neg := rfl
-      rw [hz, hnext]
-      cases t.neg <;> simp [zeroBits]
-    · right
-      refine ⟨hr1 hp, ?_⟩
-      rw [hb1 hp]
-      simp only [Bool.false_eq_true, if_false, encodeBits, sgnBit]
-      rw [hnext]
-      cases t.neg <;> simp
-
-/-- **The master theorem under the weak exponent guard**: written exponent below 100000 in magnitude, *or* a token of
-    at most 9600 bytes (then a larger exponent saturates both accumulators, harmlessly).  Known finding F6 needs a
-    token of more than 9600 bytes. -/
 theorem parseNumber_correct' (buf : List Nat) (len start : Nat) (t : Token)
     (ht : scanToken (buf.drop start) = some t) (hlen : start + t.len ≤ len)
     (hexp : (expVal t.exp).natAbs < 100000 ∨ t.len ≤ 9600)
     (hg : nativeGuard t ((buf.drop start).drop t.len) = true) :
-    NumAgrees start len (scanNumber buf start) (numOut (parseNumber buf len start)) := by
-  by_cases hsmall : (expVal t.exp).natAbs < 100000
-  · exact parseNumber_correct buf len start t ht hlen hsmall hg
-  · have hbig : 100000 ≤ (expVal t.exp).natAbs := by omega
-    have hl : t.len ≤ 9600 := by rcases hexp with h | h; exact absurd h hsmall; exact h
-    have hpos := token_len_pos _ t ht
-    have hok : ∀ v p, t.value = some v → parseNumber buf len start = .ok v (start + t.len) p →
-        NumAgrees start len (scanNumber buf start) (numOut (parseNumber buf len start)) := by
-      intro v p hv hp
-      rw [hp]
-      simp only [scanNumber, ht, hv, numOut, NumAgrees]
-      exact ⟨trivial, trivial, by omega, hlen⟩
-    have hnotint : t.isInteger = false := by
-      cases hex : t.exp with
-      | none => rw [hex] at hbig; simp [expVal] at hbig
-      | some e => simp [Token.isInteger, hex]
-    unfold parseNumber at hok ⊢
-    rcases (accumulate_spec buf start).2 t ht with ⟨hi, _, _⟩ | ⟨hni, hz, ha⟩ | ⟨hn, f, ha, hgood⟩
-    · rw [hnotint] at hi; cases hi
-    · rw [ha] at hok ⊢
-      refine hok _ _ ?_ rfl
-      rw [Sonic.Proofs.Dec.value_nonint t (by rw [hni]; simp), hz, round_zero]; rfl
-    · rw [ha] at hok ⊢
-      simp only at hok ⊢
-      have ht' := scanToken_take _ t (len - start) ht (by omega)
-      have hval := Sonic.Proofs.Dec.value_nonint t hn
-      rcases convert_round_big t (start + t.len) f _ hgood hbig hl ht' with ⟨b, p, hr, hc⟩ | ⟨hr, hc⟩
-      · exact hok _ p (by rw [hval, hr]; rfl) hc
-      · rw [hc]
-        simp only [scanNumber, ht, hval, hr, Option.map_none, numOut, NumAgrees]
+    NumAgrees start len (scanNumber buf start) (numOut (parseNumber buf len start)) :=
+  parseNumber_correct buf len start t ht hlen (by rcases hexp with h | h <;> [left; right] <;> omega) hg
 
 end Sonic.Proofs.NumberAll
